@@ -37,6 +37,19 @@ CHECKS["C07"] = {
     "technique": "contract-based deductive verification (Verus loop invariants against a recursive spec of TeX's pass_text)",
 }
 
+CHECKS["C04"] = {
+    "text": "COST FUNCTIONS ONLY. Proof (Verus, real code): badness(t, s) == TeX.2021.108 for every t >= 0 and every s (64-bit operands, result in 0..=10000, no overflow, the try_into never fails), and LineBreaker::demerits == TeX.2021.859 (line penalty, break penalty sign cases, double/final hyphen, fitness-class adjacency on the real enum discriminants) for all arguments in the ranges the break loop admits. This pins the demerit definition the optimality claim is stated in; it does NOT decide optimality.",
+    "design_ref": "DESIGN.md §5 C04",
+    "note": "NOT decided: 'breakpoints iff a feasible sequence exists' and demerit-optimality of break_line_single_attempt (a 480-line VecDeque search with a dyn logger) - an inductive Knuth-Plass invariant on that body is outside what can be annotated here. A change inside the search loop is not detected.",
+    "technique": "contract-based deductive verification (Verus, nonlinear arithmetic hints) of the cost kernel",
+}
+CHECKS["C17"] = {
+    "text": "Proof (Verus, real code) of FixWord::to_scaled == TeX.2021.568-572 store_scaled bit for bit, for every fix_word with |x| < 16 and every non-negative design size: the z-reduction loop (alpha in {16..256}, beta != 0), the byte-wise multiplication, the negative-word correction, and absence of overflow in every intermediate product.",
+    "design_ref": "DESIGN.md §5 C17",
+    "note": "NOT decided yet: fix_word print/parse round trip, compress minimal tolerance, next-larger chains. Trusted: to_be_bytes byte split; common::Scaled operator contracts are proved in unit common_scaled.",
+    "technique": "contract-based deductive verification (Verus loop invariant + recursive spec of TeX's loop)",
+}
+
 NOT_APPLICABLE = {
     "C01": "not built yet",
     "C02": "not built yet",
